@@ -97,9 +97,23 @@ def stacks(tier):
     return out
 
 
+SMALL_CTL = frozenset({"assign", "aug", "return", "if-else", "for-else", "for", "try-except", "try-finally", "with", "break", "raise"})
+CTL_STACKS = [("A", [("oprobe", "const")]), ("A", [("oprobe", "cond")]), ("A", [("oprobe", "plus"), ("probe", None)]),
+              ("B", [("tweak", "const")]), ("B", [("rewrite", "plus")])]
+
+
+def program_sets(tier):
+    """General menu at the common size bound with the full stack list; a control-flow menu one size
+    larger (else suites, handlers, finally blocks) with a short stack list."""
+    return [("gen", dict()), ("ctl", dict(size=C.SIZE[tier] + 1, only=SMALL_CTL, key=("c04ctl", tier)))]
+
+
 def units(tier):
-    n = C.count_programs(tier)
-    return [("progs", lo, min(n, lo + CHUNK)) for lo in range(0, n, CHUNK)]
+    out = []
+    for name, kw in program_sets(tier):
+        n = C.count_programs(tier, **kw)
+        out += [(name, lo, min(n, lo + CHUNK)) for lo in range(0, n, CHUNK)]
+    return out
 
 
 def focuses(prog, info):
@@ -315,14 +329,14 @@ def check_closure(prog, info, part):
     return None
 
 
-def check_program(prog, tier, part):
+def check_program(prog, tier, part, setname="gen"):
     info = C.analyse(prog)
     if info is None:
         return
     part["counters"]["programs"] += 1
     drivers = P.DRIVERS_QUICK[:4] if info["is_gen"] else [None]
     for v, w in focuses(prog, info):
-        for route, stack in stacks(tier):
+        for route, stack in (stacks(tier) if setname == "gen" else CTL_STACKS):
             if any(o == "ctx" for _, o in stack) and not w:
                 continue
             for x in (0, 1, 2):
@@ -343,9 +357,10 @@ def check_program(prog, tier, part):
 
 def work(unit, tier):
     part = new_partial()
-    _, lo, hi = unit
-    for prog in C.programs_slice(tier, lo, hi):
-        check_program(prog, tier, part)
+    name, lo, hi = unit
+    kw = dict(program_sets(tier))[name]
+    for prog in C.programs_slice(tier, lo, hi, **kw):
+        check_program(prog, tier, part, name)
     return part
 
 
